@@ -43,7 +43,9 @@ PROPS = {
         modules=['Resonate.Properties.C01'],
         tie_filter=r'promise(Select|SelectAll|Search|Insert|Update)|callbackInsert_guard|shape|wiring|uniques',
         harness=[with_monitor(storediff('storediff-promises', PROMISE_KINDS + ['DeleteCallbacks', 'CompleteTasks', 'CreateTasks'], (30, 30), (800, 40), (300, 40)), 'C01'),
-                 sysdiff('sysdiff-promises', API_PROMISE, (25, 120), (600, 150), 'C01', ['-routed', '40', '-fail', '15', '-crash', '2'], (200, 150))],
+                 sysdiff('sysdiff-promises', API_PROMISE, (25, 120), (600, 150), 'C01', ['-routed', '40', '-fail', '15', '-crash', '2'], (200, 150)),
+                 sysdiff('sysdiff-promises-focus', ['ReadPromise', 'CreatePromise', 'CompletePromise', 'SearchPromises', 'CreateCallback'], (15, 60), (500, 80), 'C01',
+                         ['-focus', '-fail', '5'], (300, 80))],
         rule=SYS_RULE + '; plus storediff over the promise command kinds; the C01 monitor (PromMono over consecutive implementation dumps) runs on every committed batch',
         assumptions=['completion requests carry a state in {resolved, rejected, canceled} (front-end validation)',
                      'byte strings are valid UTF-8 in generated inputs'],
@@ -92,7 +94,8 @@ PROPS = {
         modules=['Resonate.Properties.C04'],
         tie_filter=r'promise(SelectAll|Update|Select_|Search)|shape|wiring',
         harness=[sysdiff('sysdiff-timeouts', ['ReadPromise', 'SearchPromises', 'CreatePromise', 'CreatePromiseAndTask', 'CompletePromise'],
-                         (30, 150), (800, 150), 'C04,C01', ['-routed', '20', '-fail', '10', '-crash', '1', '-smallcfg'], (250, 150))],
+                         (30, 150), (800, 150), 'C04,C01', ['-routed', '20', '-fail', '10', '-crash', '1', '-smallcfg'], (250, 150)),
+                 sysdiff('sysdiff-timeouts-focus', ['ReadPromise', 'SearchPromises', 'CreatePromise', 'CompletePromise'], (15, 60), (500, 80), 'C04,C01', ['-focus', '-fail', '5'], (300, 80))],
         rule=SYS_RULE + '; request and sweep ticks are placed before / exactly at / after the timeout (timeouts drawn as now-1000, now, now+1, now+1000, ...; clock steps 0, 1, 500, 1000, ...), promise batch sizes 1..100; the C04 response monitor checks on every implementation response of read / create / complete / search that no promise is reported pending with timeout <= the tick of the response',
         assumptions=['the decision tick is the tick at which the coroutine was resumed after its read (c.Time())'],
         trusted_base=['coroutines modelled by hand and tied by sysdiff'],
@@ -102,6 +105,8 @@ PROPS = {
         tie_filter=r'callback|taskInsertAll|taskCompleteByRootId|promiseUpdate|promiseSelect_|shape|wiring|uniques',
         harness=[sysdiff('sysdiff-callbacks', ['ReadPromise', 'CreatePromise', 'CompletePromise', 'CreateCallback', 'CreateSubscription', 'SearchPromises'],
                          (30, 120), (600, 150), 'C05,C01,C04', ['-routed', '20', '-fail', '15', '-crash', '2', '-known', 'F5'], (200, 150)),
+                 sysdiff('sysdiff-callbacks-focus', ['ReadPromise', 'CreatePromise', 'CompletePromise', 'CreateCallback', 'CreateSubscription'], (15, 60), (500, 80), 'C05,C01',
+                         ['-focus', '-fail', '5', '-known', 'F5'], (300, 80)),
                  storediff('storediff-callbacks', ['CreatePromise', 'UpdatePromise', 'CreateCallback', 'DeleteCallbacks', 'CreateTasks', 'CompleteTasks', 'ReadTask', 'ReadPromise'], (20, 30), (500, 40))],
         rule=SYS_RULE + '; the C05 monitor (every registration awaits a pending promise; a promise completed in a batch had every registration turned into exactly one identical task) runs on every committed batch of the implementation',
         assumptions=['completion requests carry a state in {resolved, rejected, canceled} (front-end validation)'],
